@@ -342,7 +342,30 @@ def replay_isabstract(ns, ob, model):
     return False, dict(note="isabstract agrees with its definition on six probe classes")
 
 
+def replay_concat(ns, ob, model):
+    """r + x and x + r are refused with TypeError, whatever x is"""
+    from Bio.Seq import Seq, MutableSeq
+    from Bio.SeqRecord import SeqRecord
+    CircularRecord = ns["moclo.record"].CircularRecord
+    rec = CircularRecord(Seq("ATGC"), id="r")
+    others = [("str", "CC"), ("Seq", Seq("CC")), ("MutableSeq", MutableSeq("CC")), ("SeqRecord", SeqRecord(Seq("CC"), id="x")),
+              ("CircularRecord", CircularRecord(Seq("CC"), id="y")), ("int", 3), ("None", None), ("list", ["C"])]
+    for (name, x) in others:
+        for side in ("r + x", "x + r"):
+            try:
+                out = (rec + x) if side == "r + x" else (x + rec)
+                got = "returned %s %r" % (type(out).__name__, str(getattr(out, "seq", out))[:20])
+            except TypeError:
+                continue
+            except Exception as e:
+                got = "raised %r" % (e,)
+            return True, dict(call="%s with r = CircularRecord('ATGC'), x = %s" % (side, name), expected="TypeError", observed=got)
+    return False, dict(note="every operand kind is refused with TypeError on both sides")
+
+
 REPLAY = {
+    "CircularRecord.__add__": replay_concat,
+    "CircularRecord.__radd__": replay_concat,
     "isabstract": replay_isabstract,
     "AbstractModule.target_sequence": replay_target_frame,
     "AbstractVector.target_sequence": replay_target_frame,
